@@ -356,7 +356,9 @@ def run_monitor(spec, tier, seed, escalate):
         return None, []
     mine = [kf for kf in load_known() if kf.get("property") == spec["id"] and kf.get("signature")]
     runs = {"quick": 150, "thorough": 1500}[tier] * (4 if escalate else 1)
-    cmd = [C.VH, "monitor", "--prop", mon, "--runs", str(runs), "--steps", "500", "--seed", str(seed)]
+    # --learner-campaign: the simulated application may call campaign() on any node (a no-op on
+    # non-voters since /repo 8deb47c; before that fix it broke C01/C20)
+    cmd = [C.VH, "monitor", "--prop", mon, "--runs", str(runs), "--steps", "500", "--seed", str(seed), "--learner-campaign"]
     if mine:
         cmd += ["--ignore", ",".join(kf["signature"] for kf in mine)]
     rc, out = C.run(cmd, timeout=3000)
